@@ -214,6 +214,8 @@ def dba(s, c, mask=None, samples=None, use_c=False, nb_initial_samples=None, **k
         if mask is not None and not mask[idx]:
             continue
         if use_c:
+            # The C code works on the raw buffer: make sure it is C contiguous
+            seq = util_numpy.verify_np_array(seq)
             if ndim == 1:
                 m = dtw_cc.warping_path(c, seq, **kwargs)
             else:
